@@ -351,7 +351,7 @@ def random_case(rng, surrogates=("DUMMY", "ET", "RF"), search=None):
     sm = rng.choice(list(surrogates))
     acqs = ["UCB", "EI", "PI", "UCBd", "EId", "PId", "MES", "MESd", "gp_hedge", "gp_hedged"]
     if sm == "GP":
-        acqs = ["UCB", "EI", "PI", "gp_hedge"]          # GP + *d: F04 (TypeError); GP + MES: no gradient (NotImplementedError)
+        acqs = ["UCB", "EI", "PI", "gp_hedge", "MES"]   # GP + *d: F04 (TypeError)
     if sm == "DUMMY":
         acqs = ["UCB", "UCBd"]
     kw = K(surrogate_model=sm, acq_func=rng.choice(acqs), initial_point_generator=rng.choice(INITS), n_initial_points=rng.randrange(3, 6), n_points=rng.choice([32, 64, 128]))
